@@ -8,10 +8,12 @@ mkdir -p bin work evidence replays
 (cd tools/ssagen && go build -o ../../bin/ssagen .)
 (cd tools/decgen && go build -o ../../bin/decgen .)
 (cd tools/encgen && go build -o ../../bin/encgen .)
+(cd tools/keygen && go build -o ../../bin/keygen .)
 ./bin/factgen /repo > lean/Bmc/Gen/Facts.lean.tmp && mv lean/Bmc/Gen/Facts.lean.tmp lean/Bmc/Gen/Facts.lean
 ./bin/ssagen /repo > lean/Bmc/Gen/Prims.lean.tmp && mv lean/Bmc/Gen/Prims.lean.tmp lean/Bmc/Gen/Prims.lean
 ./bin/decgen /repo > lean/Bmc/Gen/Dec.lean.tmp && mv lean/Bmc/Gen/Dec.lean.tmp lean/Bmc/Gen/Dec.lean
 ./bin/encgen /repo > lean/Bmc/Gen/Enc.lean.tmp && mv lean/Bmc/Gen/Enc.lean.tmp lean/Bmc/Gen/Enc.lean
+./bin/keygen /repo > lean/Bmc/Gen/Keys.lean.tmp && mv lean/Bmc/Gen/Keys.lean.tmp lean/Bmc/Gen/Keys.lean
 rm -f work/gen.hash
 (cd lean && lake build)
 cp /repo/go.sum harness/go.sum
